@@ -1,6 +1,7 @@
 /* wire_h: in-process harness for the wire layer (C16, C01, C02, C11, C12).
  * Reads one command per line on stdin, prints one canonical result per line. */
 #include "common.h"
+#include <unistd.h>
 #include <dbus/dbus-marshal-validate.h>
 #include <dbus/dbus-signature.h>
 #include <dbus/dbus-syntax.h>
@@ -56,9 +57,132 @@ static void do_sig (const char *hex)
   free (b);
 }
 
+#include <dbus/dbus-message-internal.h>
+#include <dbus/dbus-message-private.h>
+
+/* canonical dump of a message through the PUBLIC accessor / iterator API */
+static void dump_iter (DBusMessageIter *it)
+{
+  int t; int first = 1;
+  while ((t = dbus_message_iter_get_arg_type (it)) != DBUS_TYPE_INVALID)
+    {
+      if (!first) putchar (' ');
+      first = 0;
+      switch (t)
+        {
+        case DBUS_TYPE_BYTE: { unsigned char v; dbus_message_iter_get_basic (it, &v); printf ("y%u", v); break; }
+        case DBUS_TYPE_BOOLEAN: { dbus_bool_t v; dbus_message_iter_get_basic (it, &v); printf ("b%u", (unsigned) v); break; }
+        case DBUS_TYPE_INT16: case DBUS_TYPE_UINT16: { dbus_uint16_t v; dbus_message_iter_get_basic (it, &v); printf ("%c%u", t, (unsigned) v); break; }
+        case DBUS_TYPE_INT32: case DBUS_TYPE_UINT32: { dbus_uint32_t v; dbus_message_iter_get_basic (it, &v); printf ("%c%u", t, (unsigned) v); break; }
+        case DBUS_TYPE_UNIX_FD: { int v = -1; dbus_message_iter_get_basic (it, &v); if (v >= 0) close (v); printf ("h_"); break; }   /* descriptors are C15's business */
+        case DBUS_TYPE_INT64: case DBUS_TYPE_UINT64: case DBUS_TYPE_DOUBLE: { dbus_uint64_t v; dbus_message_iter_get_basic (it, &v); printf ("%c%llu", t, (unsigned long long) v); break; }
+        case DBUS_TYPE_STRING: case DBUS_TYPE_OBJECT_PATH: case DBUS_TYPE_SIGNATURE:
+          { const char *v; dbus_message_iter_get_basic (it, &v); printf ("%c", t); puthex ((const unsigned char *) v, (int) strlen (v)); break; }
+        case DBUS_TYPE_ARRAY:
+          { DBusMessageIter sub; char *sg; dbus_message_iter_recurse (it, &sub);
+            printf ("a["); dump_iter (&sub); printf ("]"); break; }
+        case DBUS_TYPE_STRUCT: { DBusMessageIter sub; dbus_message_iter_recurse (it, &sub); printf ("("); dump_iter (&sub); printf (")"); break; }
+        case DBUS_TYPE_DICT_ENTRY: { DBusMessageIter sub; dbus_message_iter_recurse (it, &sub); printf ("{"); dump_iter (&sub); printf ("}"); break; }
+        case DBUS_TYPE_VARIANT:
+          { DBusMessageIter sub; char *sg; dbus_message_iter_recurse (it, &sub); sg = dbus_message_iter_get_signature (&sub);
+            printf ("v<%s>", sg ? sg : "OOM"); dbus_free (sg); dump_iter (&sub); printf ("</v>"); break; }
+        default: printf ("?%d", t);
+        }
+      dbus_message_iter_next (it);
+    }
+}
+
+static void puts_or_dash (const char *k, const char *v)
+{
+  printf (" %s=", k);
+  if (v == NULL) printf ("~"); else puthex ((const unsigned char *) v, (int) strlen (v));
+}
+
+static void dump_message (DBusMessage *m)
+{
+  DBusMessageIter it;
+  printf ("type=%d flags=%d%d%d serial=%u rs=%u", dbus_message_get_type (m), dbus_message_get_no_reply (m) ? 1 : 0,
+          dbus_message_get_auto_start (m) ? 0 : 1, dbus_message_get_allow_interactive_authorization (m) ? 1 : 0,
+          dbus_message_get_serial (m), dbus_message_get_reply_serial (m));
+  puts_or_dash ("path", dbus_message_get_path (m));
+  puts_or_dash ("iface", dbus_message_get_interface (m));
+  puts_or_dash ("member", dbus_message_get_member (m));
+  puts_or_dash ("err", dbus_message_get_error_name (m));
+  puts_or_dash ("dest", dbus_message_get_destination (m));
+  puts_or_dash ("sender", dbus_message_get_sender (m));
+  puts_or_dash ("sig", dbus_message_get_signature (m));
+  printf (" body=[");
+  if (dbus_message_iter_init (m, &it)) dump_iter (&it);
+  printf ("]");
+}
+
+static void put_marshalled (DBusMessage *m)
+{
+  char *buf = NULL; int len = 0;
+  if (!dbus_message_marshal (m, &buf, &len)) { printf ("OOM"); return; }
+  puthex ((const unsigned char *) buf, len);
+  dbus_free (buf);
+}
+
+/* load <mode> <chunk> [<chunk> ...] : feed a loader chunk by chunk (queue_messages after each, as the transport does).
+ * mode: m = print marshalled messages, d = print accessor dumps */
+static void do_load (char *mode)
+{
+  DBusMessageLoader *l = _dbus_message_loader_new ();
+  char *tok; int produced_after_corrupt = 0;
+  if (l == NULL) abort ();
+  while ((tok = strtok (NULL, " ")) != NULL)
+    {
+      int n; unsigned char *b = unhex (tok, &n); DBusString *buf; int off = 0;
+      /* honour max_to_read like the socket transport does */
+      while (off < n || n == 0)
+        {
+          int max_to_read = n; int take; dbus_bool_t may_fds = FALSE;
+          _dbus_message_loader_get_buffer (l, &buf, &max_to_read, &may_fds);
+          take = n - off; if (take > max_to_read) take = max_to_read;
+          if (!_dbus_string_append_len (buf, (const char *) b + off, take)) abort ();
+          _dbus_message_loader_return_buffer (l, buf);
+          if (!_dbus_message_loader_queue_messages (l)) abort ();
+          off += take;
+          if (n == 0) break;
+        }
+      free (b);
+    }
+  {
+    DBusMessage *m; int cnt = 0; DBusValidity reason = DBUS_VALID;
+    dbus_bool_t corrupted = _dbus_message_loader_get_is_corrupted (l);
+    if (corrupted) reason = _dbus_message_loader_get_corruption_reason (l);
+    printf ("corrupted=%d reason=%d msgs=", corrupted ? 1 : 0, (int) reason);
+    while ((m = _dbus_message_loader_pop_message (l)) != NULL)
+      {
+        if (cnt++) putchar ('|');
+        if (mode[0] == 'd') dump_message (m); else put_marshalled (m);
+        dbus_message_unref (m);
+      }
+    if (cnt == 0) putchar ('-');
+    printf ("\n");
+  }
+  _dbus_message_loader_unref (l);
+}
+
+static void do_demarshal (const char *hex)
+{
+  int n; unsigned char *b = unhex (hex, &n);
+  DBusError e; DBusMessage *m; int need;
+  dbus_error_init (&e);
+  need = dbus_message_demarshal_bytes_needed ((const char *) b, n);
+  m = dbus_message_demarshal ((const char *) b, n, &e);
+  if (m != NULL) { printf ("needed=%d msg ", need); put_marshalled (m); printf ("\n"); dbus_message_unref (m); }
+  else if (dbus_error_has_name (&e, DBUS_ERROR_NO_MEMORY)) printf ("needed=%d incomplete\n", need);
+  else printf ("needed=%d corrupt\n", need);
+  dbus_error_free (&e);
+  free (b);
+}
+
 int main (void)
 {
   char *line = NULL; size_t cap = 0; ssize_t got;
+  setvbuf (stdout, NULL, _IOLBF, 0);   /* so that the crashing input can be identified */
   while ((got = getline (&line, &cap, stdin)) > 0)
     {
       char *cmd, *a1;
@@ -74,6 +198,8 @@ int main (void)
       else if (!strcmp (cmd, "busname")) do_name (a1, _dbus_validate_bus_name, dbus_validate_bus_name);
       else if (!strcmp (cmd, "utf8")) do_utf8 (a1);
       else if (!strcmp (cmd, "sig")) do_sig (a1);
+      else if (!strcmp (cmd, "load")) do_load (a1);
+      else if (!strcmp (cmd, "demarshal")) do_demarshal (a1);
       else printf ("?unknown-command\n");
     }
   free (line);
